@@ -298,8 +298,21 @@ def recognise_end_around(I, repo, fn_node, mod):
         env2.vars[sv] = SV
         test = I.ev(w.test, env2, mod)
         ok_test = test in (sym.op("cmp", ">", SV, 0xffff), sym.op("cmp", ">=", SV, 0x10000), sym.op("cmp", "<", 0xffff, SV), sym.op("cmp", "<=", 0x10000, SV))
+        threshold_problem = None
         if not ok_test:
-            return f"loop condition {test!r} is not 'sum exceeds 16 bits'"
+            # the same comparison with another constant is decided exactly: t = smallest sum for which the body runs
+            t = None
+            if is_sym(test) and test[:2] == ("op", "cmp") and len(test) == 5:
+                op, a, b = test[2], test[3], test[4]
+                if a == SV and isinstance(b, int):
+                    t = {">": b + 1, ">=": b}.get(op)
+                elif b == SV and isinstance(a, int):
+                    t = {"<": a + 1, "<=": a}.get(op)
+            if t is None:
+                return f"loop condition {test!r} is not 'sum exceeds 16 bits'"
+            threshold_problem = (f"VIOLATION: the fold loop runs while {test!r}: for a byte sum of exactly 0x{t:X} the body leaves the sum unchanged (its high part is 0), so the loop never ends and no file is written"
+                                 if t < 0x10000 else
+                                 f"VIOLATION: the fold loop runs while {test!r}: a byte sum of 0x10000 is returned unfolded and does not fit the 16-bit checksum word")
         if len(w.body) != 1 or not isinstance(w.body[0], ast.Assign) or norm_text(w.body[0].targets[0]) != sv:
             return "loop body is not a single re-assignment of the sum"
         nxt = I.ev(w.body[0].value, env2, mod)
@@ -310,7 +323,7 @@ def recognise_end_around(I, repo, fn_node, mod):
         rest = body[i + 1:]
         if len(rest) != 1 or not isinstance(rest[0], ast.Return) or norm_text(rest[0].value) != sv:
             return "the folded sum is not returned as is"
-        return None
+        return threshold_problem
     return "no fold loop"
 
 
@@ -353,6 +366,9 @@ def rule_R6(ck):
         why = recognise_end_around(I, repo, fn, repo.module("bk_wav"))
         ck.instance("checksum-helper", {"helper": fname, "fold-loop idiom": why is None}, fn=f"bk_wav::{fname}")
         if why is None:
+            return
+        if why.startswith("VIOLATION: "):
+            ck.violation(f"bk_wav::{fname}", why[len("VIOLATION: "):], construct="checksum fold threshold")
             return
         # not the fold loop: a loop-free body is decided by complete valuation
         has_loop = any(isinstance(n, (ast.While, ast.For)) for n in ast.walk(fn))
